@@ -17,5 +17,5 @@ for tc in ET.parse(junit).getroot().iter("testcase"):
 os.unlink(junit)
 missing = [t for t in base["stable_pass"] if t not in passed]
 print(f"stable_pass={len(base['stable_pass'])} passed_now={len(passed)} missing={len(missing)}")
-for t in missing[:40]: print("  NOT PASSING:", t)
+for t in missing[:int(os.environ.get("BASELINE_SHOW", "40"))]: print("  NOT PASSING:", t)
 sys.exit(1 if missing else 0)
